@@ -21,6 +21,11 @@ def main(tier, seed):
     run.notes["located_compile_errors"] = stats.get("cerr", 0)
     if stats.get("err", 0) < 20:
         run.thin_corpus("too few error runs to say anything about locations")
+    # errors the reference machine cannot place (it does not count instructions): runs cut off by a small random budget end in Timeout
+    # at every kind of instruction.  VmInstrTrace follows the call frames instruction by instruction; when the run ends it demands
+    # that the error's trace begins with a card of the function whose instruction failed and has one entry per active caller
+    instr_conformance(run, ["calls", "deep", "errors", "closures"], 150 if not thorough else 1500, seed + 7, "C15-loc",
+                      lambda m: "error's trace" in str(m.get("why")), max_events=400, vary_budget=True)
     run.sample(dict(record=dict((k, v) for k, v in json.loads(open(files[0]).readline()).items() if k in ("id", "obs"))))
     run.assumptions += ["an error-provoking card of each fallible kind is planted at random statement positions (inside loops, branches, closures, callees) and "
                         "in non-last operand positions; the reference machine carries the current card index and the active call cards",
